@@ -33,4 +33,14 @@ NFromBytesLE(bs) == BFromBytesLE(bs)
 NFromBytesBE(bs) == BFromBytesBE(bs)
 NToBytesLE(n, len) == BToBytesLE(n, len)
 NToBytesBE(n, len) == BToBytesBE(n, len)
+
+(***************************************************************************)
+(* Eager let.  TLC evaluates LET definitions and operator arguments lazily *)
+(* and RE-EVALUATES them at every reference, so an expensive definition    *)
+(* referenced n times costs n evaluations (and chains of such definitions  *)
+(* multiply).  ELet(v, LAMBDA x : body) evaluates v exactly once - as the  *)
+(* element of a tuple handed to the (Java) FoldLeft - and binds the        *)
+(* resulting VALUE to x in body.  Semantically ELet(v, F) = F(v).          *)
+(***************************************************************************)
+ELet(v, F(_)) == FoldLeft(LAMBDA acc, x : F(x), 0, <<v>>)
 =============================================================================
